@@ -319,6 +319,14 @@ func (c *Config) validate() error {
 	if c.MaxCommittedSizePerReady == 0 {
 		c.MaxCommittedSizePerReady = c.MaxSizePerMsg
 	}
+	if c.MaxCommittedSizePerReady == 0 {
+		// MaxSizePerMsg == 0 is a legal setting ("at most one entry per
+		// message"). A zero apply budget, however, can never be positive, which
+		// nextCommittedEnts asserts, and it would keep applying paused for good.
+		// The smallest positive budget has the matching meaning on the apply
+		// side: one entry is handed out at a time.
+		c.MaxCommittedSizePerReady = 1
+	}
 
 	if c.MaxInflightMsgs <= 0 {
 		return errors.New("max inflight messages must be greater than 0")
